@@ -153,7 +153,10 @@ func locksets(fn *ssa.Function, entry lockState) map[ssa.Instruction]lockState {
 func containerFields(v ssa.Value) [][2]string {
 	var out [][2]string
 	seen := map[string]bool{}
-	for x := range backSlice(v, SliceOpts{}).Vals {
+	// copies made with the append/copy builtins keep the provenance (a snapshot of the subscriber channels is still a set of
+	// channels that somebody else may close)
+	throughBuiltins := func(c *ssa.Call) bool { _, isB := c.Call.Value.(*ssa.Builtin); return isB }
+	for x := range backSlice(v, SliceOpts{ThroughCallArgs: throughBuiltins}).Vals {
 		if fa, ok := x.(*ssa.FieldAddr); ok {
 			k := [2]string{namedTypeName(fa.X.Type()), fieldName(fa)}
 			if !seen[k[0]+"."+k[1]] {
